@@ -651,14 +651,25 @@ def _interface_cases(draw, tier):
         plink = "cross" if nparam else "series"
     # 'aligned': parameters per node - every node key must occur on both sides (the broadcaster's documented use)
     amp, mean, beside = draw(_cycles([0.0, -1.0, -INF, Rg] + borders, qmin, nmin=2 if plink == "aligned" else 1, nmax=5))
+    columns = draw(st.sampled_from(["range_mean", "from_to", "to_from", "mixed"]))
+    # upper load -0.0 (from < 0, to = -0.0; e.g. what scale(-1) makes of a pulsating cycle): the same cycle as upper load 0.0
+    neg_zero = columns != "range_mean" and draw(st.integers(0, 2)) == 0
+    if neg_zero:
+        a0 = draw(st.integers(1, 4000)) / 8.0
+        amp[0], mean[0], beside[0] = a0, -a0, False
+    # the parameter Series may carry a name (a row of a DataFrame of materials), parameter frames may be indexed by strings
+    pname = draw(st.sampled_from([None, None, "steel", 3, ["t", 1]])) if not nparam else None
+    pindex = draw(st.sampled_from(["int", "str"])) if nparam else "int"
     return {"method": method, "params": params, "frame": bool(nparam), "param_link": plink, "layout": layout,
-            "columns": draw(st.sampled_from(["range_mean", "from_to", "to_from", "mixed"])),
+            "neg_zero_upper": neg_zero, "param_name": pname, "param_index": pindex,
+            "columns": columns,
             "cycles_column": draw(st.booleans()), "R_goal": _j(Rg), "amplitude": amp, "mean": mean, "beside": beside}
 
 
 @subcheck("C12", "interfaces_agree", strategy=_interface_cases, quick=500, thorough=20000,
-          doc="df.meanstress_transform.fkm_goodman / five_segment (Series or DataFrame of parameters, range/mean or from/to columns in either "
-              "orientation, extra index levels) == plain function per parameter row (rtol 1e-12: same arithmetic), result on the target ray")
+          doc="df.meanstress_transform.fkm_goodman / five_segment (Series of parameters with or without a name - str, int, tuple -, DataFrame "
+              "of parameters indexed by ints or strings, range/mean or from/to columns in either orientation, upper load 0.0 or -0.0, extra "
+              "index levels) == plain function per parameter row (rtol 1e-12: same arithmetic), result on the target ray, inputs unchanged")
 def interfaces_agree(case, ctx):
     MS = _MS()
     Rg = _f(case["R_goal"])
@@ -689,6 +700,11 @@ def interfaces_agree(case, ctx):
     else:
         lo, hi = mean - amp, mean + amp
         flip = {"from_to": np.zeros(n, bool), "to_from": np.ones(n, bool), "mixed": np.arange(n) % 2 == 1}[cols]
+        if case.get("neg_zero_upper"):
+            hi = np.where(hi == 0.0, -0.0, hi)
+            if np.signbit(hi[hi == 0.0]).any():
+                ctx.label("upper_load_negative_zero")
+                ctx.nontrivial()
         df = pd.DataFrame({"from": np.where(flip, hi, lo), "to": np.where(flip, lo, hi)}, index=index)
     if case["cycles_column"]:
         df["cycles"] = np.arange(1.0, n + 1.0)
@@ -699,6 +715,11 @@ def interfaces_agree(case, ctx):
     plist = case["params"]
     if not case["frame"]:
         par = pd.Series({k: plist[0][k] for k in keys})
+        pname = case.get("param_name")
+        if pname is not None:
+            par.name = tuple(pname) if isinstance(pname, list) else pname
+            ctx.label("parameter_series_named:%s" % type(par.name).__name__)
+            ctx.nontrivial()
         pkeys = [()]
         pnames = []
     else:
@@ -713,8 +734,13 @@ def interfaces_agree(case, ctx):
             pkeys = [("s%d" % (i // 2), i) for i in range(len(plist))]
             pnames = ["batch", "mat"]
         else:
-            pidx = pd.Index([7 + i for i in range(len(plist))], name="mat")
-            pkeys = [(7 + i,) for i in range(len(plist))]
+            if case.get("param_index") == "str":
+                labels = ["steel", "alu", "cast iron"][:len(plist)]
+                ctx.label("parameter_frame_string_index")
+            else:
+                labels = [7 + i for i in range(len(plist))]
+            pidx = pd.Index(labels, name="mat")
+            pkeys = [(x,) for x in labels]
             pnames = ["mat"]
         par = pd.DataFrame({k: [p[k] for p in plist] for k in keys}, index=pidx)
     df0 = df.copy(deep=True)
